@@ -1,4 +1,5 @@
 import difflib
+import os
 from pathlib import Path
 from typing import Dict, Iterable, Tuple
 
@@ -91,7 +92,9 @@ class Refactoring:
                 return p
             p = str(p)
             for from_, to in renames:
-                if p.startswith(str(from_)):
+                # Only the renamed path itself and paths below it change, not
+                # siblings that merely start with the same characters.
+                if p == str(from_) or p.startswith(str(from_) + os.sep):
                     p = str(to) + p[len(str(from_)):]
             return Path(p)
 
